@@ -2,11 +2,11 @@ from props import cfg
 
 CFG = cfg('C15', refine=[], extract='Ex_C15', driver='c15',
           rule='model-based testing of key-management histories on real Ed25519 keys (Ed25519 / Curve25519 subkeys), explicit created= times with '
-               'same-second collisions, datetime.now frozen for the cross-signature: after a 4-step preamble on 2 keys, ALL histories of depth 1 over 41 '
-               'operation instances, depth 2 over 21, depth 3 over 10 (quick) / depth 2 over 41, depth 3 over 21, depth 4 over 10 (thorough, within a '
+               'same-second collisions, datetime.now frozen for the cross-signature: after a 4-step preamble on 2 keys, ALL histories of depth 1 over 46 '
+               'operation instances, depth 2 over 23, depth 3 over 10 (quick) / depth 2 over 46, depth 3 over 23, depth 4 over 10 (thorough, within a '
                'time budget - completed sweeps are listed under exhaustive_domains), hand-written histories, and random walks of depth 30 over the whole '
                'operation set (create, add_uid text/image with preference sets, recertify, third-party certify of a user id and of the key itself (direct-key signature) incl. exportable 0/1, attestation (0x16) by the key on its own identity, revoke uid / subkey / '
-               'key, add revoker, del_uid, add_subkey signing / encryption, protect, unlock, lock, copy, export+import, publish the public twin) on up to '
+               'key, add revoker, del_uid, add_subkey signing / encryption, add_subkey of an existing key that has identities (refused, both keys byte-identical afterwards), key expiration 0, protect, unlock, lock, copy, export+import, publish the public twin) on up to '
                '4 key objects; after the compared steps the observable state of every object and of its public twin (signature lists with type / issuer / '
                'created / exportable / primary mark / flags+expiry+preferences, user id order, selfsig-derived effective attributes, key expiry, '
                'revocation reports, lock state) is compared with the extracted model, and the direct oracle runs on the real code: every signature '
@@ -19,7 +19,7 @@ CFG = cfg('C15', refine=[], extract='Ex_C15', driver='c15',
           assumptions=['PARTIAL: signatures are symbolic in the theorems (verifies = recomputation of the digest term under the issuer label); the signature '
                        'primitive is exercised only by the harness (Ed25519 through cryptography/OpenSSL)',
                        'PGPUID.selfsig is the newest self-certification (types 0x10-0x13 issued by the key, repair 812bc0f); the rule before it is kept as selfsig_old and refuted',
-                       'add_subkey is applied only to keys without passphrase protection; one passphrase per run; unlock/lock = entering/leaving `with key.unlock()`',
+                       'a key whose identities are all user attributes certifies / revokes / binds like any other (repair 1d6dbd1; certify_ok_old / revoke_ok_old = before); key expiration 0 = never (96d5157; key_expiry_pre96 = before); add_subkey is applied only to keys without passphrase protection; one passphrase per run; unlock/lock = entering/leaving `with key.unlock()`',
                        'earlier public twin objects kept by a caller are not modelled (every .pubkey call derives a new twin; mirroring into a live older twin through __or__ is outside the model)',
                        'key material / key ids / fingerprints are labels; user ids are addressed by (kind, content) with first-match semantics like PGPKey.get_uid',
                        'algorithms other than Ed25519 / Curve25519 are not exercised by this harness (algorithm-specific signing is C01/C02)'])
